@@ -5,7 +5,7 @@
 (*                                                                         *)
 (* Pure integer arithmetic on civil fields; text is a sequence of          *)
 (* character codes.  An input is a record                                  *)
-(*   [y, mo, d, h, mi, s, us, off]   off = UTC offset in minutes           *)
+(*   [y, mo, d, h, mi, s, us, off(, offs)]  off = UTC offset in minutes (+ offs seconds) *)
 (* (a naive datetime is read as UTC, i.e. off = 0, as the library          *)
 (* documents).  Instants are triples <<day, second-of-day, microsecond>>   *)
 (* so that everything stays inside TLC's 32-bit integers.                  *)
@@ -40,7 +40,9 @@ CivilDate(n) == LET y == YearOf(n)
 -----------------------------------------------------------------------------
 (* Instants *)
 \* UTC instant of an input with offset
-Instant(c) == LET total == c.h * 3600 + c.mi * 60 + c.s - c.off * 60
+\* (offs, when present, is the seconds part of the UTC offset: the offset is off minutes + offs seconds; historical local mean times have one)
+OffSeconds(c) == c.off * 60 + (IF "offs" \in DOMAIN c THEN c.offs ELSE 0)
+Instant(c) == LET total == c.h * 3600 + c.mi * 60 + c.s - OffSeconds(c)
               IN <<Ordinal(c.y, c.mo, c.d) + (total \div 86400), total % 86400, c.us>>
 InRange(i) == i[1] >= 1 /\ i[1] <= MaxOrdinal
 Leq(a, b) == \/ a[1] < b[1]
